@@ -60,7 +60,7 @@ func (d *DotGit) setRefRwfs(fileName, content string, old *plumbing.Reference) (
 // This version of the function writes the reference without extra checks
 // making it compatible with these simple filesystems. This is usually not
 // a problem as they should be accessed by only one process at a time.
-func (d *DotGit) setRefNorwfs(fileName, content string, old *plumbing.Reference) error {
+func (d *DotGit) setRefNorwfs(fileName, content string, old *plumbing.Reference) (err error) {
 	if old != nil {
 		// As in checkReferenceAndTruncate, a missing or empty loose file
 		// means that the value to compare with is in packed-refs.
@@ -79,7 +79,8 @@ func (d *DotGit) setRefNorwfs(fileName, content string, old *plumbing.Reference)
 		return err
 	}
 
-	defer func() { _ = f.Close() }()
+	// On these filesystems Close is where the write is committed.
+	defer ioutil.CheckClose(f, &err)
 
 	_, err = f.Write([]byte(content))
 	return err
